@@ -2,11 +2,21 @@
     correspondence check (kernel evaluation on what the real registries returned). *)
 From SioV Require Import Base.GoSem Sio.HandlerStore.
 
-(** What the occurrences of one run returned, as one number in base 8: a leading 1, then per
-    occurrence one digit (id+1, ids 0..5) per handler run and a closing 0; the harness appends the
-    digit 7 and stops when a call panicked (the model never does). *)
-Definition enc_outs (outs : list (list N)) : N :=
-  fold_left (fun n l => (fold_left (fun n x => n * 8 + (x + 1)) l n) * 8)%N outs 1%N.
+(** What the occurrences of one run returned, as a digit stream: per occurrence one digit (id+1,
+    ids 0..5) per handler run and a closing 0.  The harness sends the same digits (as one base-8
+    number with a leading 1) and appends the digit 7 and stops when a call panicked (the model
+    never does). *)
+Definition digits_of (outs : list (list N)) : list N :=
+  flat_map (fun l => map N.succ l ++ [0%N]) outs.
+Definition enc_digits (ds : list N) : N := fold_left (fun n d => n * 8 + d)%N ds 1%N.
+
+(** 61-bit polynomial digest of digit streams (the harness computes the same function on what
+    the implementation returned; a mismatch is then located by the exact comparison below). *)
+Definition M61 : N := 2305843009213693951%N.
+Definition red (x : N) : N :=
+  let y := (N.land x M61 + N.shiftr x 61)%N in if (M61 <=? y)%N then (y - M61)%N else y.
+Definition hstep (h x : N) : N := red (red (h * 1000003 + x + 1)%N).
+Definition hseq (h : N) (ds : list N) : N := hstep (fold_left hstep ds h) 9%N.
 
 (** All op sequences of length [d] over [alpha], first op most significant (harness order). *)
 Fixpoint seqs {X} (alpha : list X) (d : nat) : list (list X) :=
@@ -15,45 +25,97 @@ Fixpoint seqs {X} (alpha : list X) (d : nat) : list (list X) :=
   | S d' => flat_map (fun o => map (cons o) (seqs alpha d')) alpha
   end.
 
-Fixpoint bad_from {X} (f : list X -> N) (pre suf : list X) (i : N)
+Fixpoint bad_from {X} (f : list X -> list N) (pre suf : list X) (i : N)
          (ss : list (list X)) (obs : list N) : list N :=
   match ss, obs with
   | [], [] => []
   | s :: ss', o :: obs' =>
-      if N.eqb (f (pre ++ s ++ suf)) o then bad_from f pre suf (N.succ i) ss' obs'
+      if N.eqb (enc_digits (f (pre ++ s ++ suf))) o then bad_from f pre suf (N.succ i) ss' obs'
       else i :: bad_from f pre suf (N.succ i) ss' obs'
   | _, _ => [4000000000%N]         (* observation count does not match the enumeration *)
   end.
 
 (** Indexes (in enumeration order) of the sequences [pre ++ s ++ suf], [s] of length [d] over
     [alpha], on which [f] differs from the observed number. *)
-Definition enum_bad {X} (f : list X -> N) (alpha pre suf : list X) (d : nat) (obs : list N) : list N :=
+Definition enum_bad {X} (f : list X -> list N) (alpha pre suf : list X) (d : nat) (obs : list N) : list N :=
   bad_from f pre suf 0%N (seqs alpha d) obs.
 
-(** Which of the given indexes are sequences of the finding class [cls]. *)
-Definition in_class {X} (cls : list X -> bool) (alpha pre suf : list X) (d : nat) (idx : list N) : list bool :=
-  map (fun i => cls (pre ++ nth (N.to_nat i) (seqs alpha d) [] ++ suf)) idx.
+(** Same, each index with the finding-class flag of its sequence. *)
+Fixpoint bad_cls_from {X} (f : list X -> list N) (cls : list X -> bool) (pre suf : list X) (i : N)
+         (ss : list (list X)) (obs : list N) : list (N * bool) :=
+  match ss, obs with
+  | [], [] => []
+  | s :: ss', o :: obs' =>
+      let ops := pre ++ s ++ suf in
+      if N.eqb (enc_digits (f ops)) o then bad_cls_from f cls pre suf (N.succ i) ss' obs'
+      else (i, cls ops) :: bad_cls_from f cls pre suf (N.succ i) ss' obs'
+  | _, _ => [(4000000000%N, false)]
+  end.
+
+Definition nlen {X} (l : list X) : N := N.of_nat (length l).
+
+(** One row of an enumerated suite, as a flat list of numbers:
+    [#model-mismatches; k; first k indexes;  #spec-failures in the finding class; k; first k;
+     #spec-failures outside the class; k; first k]. *)
+Definition enum_check {X} (fm fs : list X -> list N) (cls : list X -> bool)
+           (alpha pre suf : list X) (d : nat) (obs : list N) : list N :=
+  let bm := enum_bad fm alpha pre suf d obs in
+  let bs := bad_cls_from fs cls pre suf 0%N (seqs alpha d) obs in
+  let bin := map fst (filter (fun x => snd x) bs) in
+  let bout := map fst (filter (fun x => negb (snd x)) bs) in
+  let part l := nlen l :: nlen (firstn 20 l) :: firstn 20 l in
+  part bm ++ part bin ++ part bout.
+
+Definition no_class {X} (_ : list X) : bool := false.
+
+(** One row by digest: [digest of the model over all sequences; digest of the specification over
+    the sequences outside the finding class; #sequences in the class; #of those on which the
+    specification differs from the model; index+1 of the first such (0 if none)]. *)
+Fixpoint digest_from {X} (fm fs : list X -> list N) (cls : list X -> bool) (pre suf : list X)
+         (ss : list (list X)) (i hm hs nin nfail first : N) : list N :=
+  match ss with
+  | [] => [hm; hs; nin; nfail; first]
+  | s :: ss' =>
+      let ops := pre ++ s ++ suf in
+      let dm := fm ops in
+      let hm' := hseq hm dm in
+      if cls ops then
+        let differs := negb (list_eqb N.eqb dm (fs ops)) in
+        digest_from fm fs cls pre suf ss' (N.succ i) hm' hs (N.succ nin)
+                    (if differs then N.succ nfail else nfail)
+                    (if differs && N.eqb first 0 then N.succ i else first)
+      else
+        digest_from fm fs cls pre suf ss' (N.succ i) hm' (hseq hs (fs ops)) nin nfail first
+  end.
+Definition enum_digest {X} (fm fs : list X -> list N) (cls : list X -> bool)
+           (alpha pre suf : list X) (d : nat) : list N :=
+  digest_from fm fs cls pre suf (seqs alpha d) 0%N 7%N 7%N 0%N 0%N 0%N.
 
 (** *** handlerStore[T] driven directly (handlers are pointers, ids 0..5). *)
-Definition ls_model (ops : list (op N)) : N := enc_outs (outs N N.eqb ops).
-Definition ls_spec (ops : list (op N)) : N := enc_outs (spec_outs N N.eqb ops).
+Definition ls_model (ops : list (op N)) : list N := digits_of (outs N N.eqb ops).
+Definition ls_spec (ops : list (op N)) : list N := digits_of (spec_outs N N.eqb ops).
 
 (** *** eventHandlerStore, directly and through OnEvent/OnceEvent/OffEvent/OffAll of namespace /
     server socket / client socket objects.  A handler is (code pointer, closure instance); the
     harness menu is such that code+instance is a distinct digit. *)
 Definition fdigit (a : fval) : N := (fst a + snd a)%N.
-Definition es_model (ops : list (eop fval)) : N :=
-  enc_outs (map (fun x => map fdigit (snd x)) (eouts fval same_code ops)).
-Definition es_spec (ops : list (eop fval)) : N :=
-  enc_outs (map (fun x => map fdigit (snd x)) (espec_outs fval same_fval ops)).
+Definition es_model (ops : list (eop fval)) : list N :=
+  digits_of (map (fun x => map fdigit (snd x)) (eouts fval same_code ops)).
+Definition es_spec (ops : list (eop fval)) : list N :=
+  digits_of (map (fun x => map fdigit (snd x)) (espec_outs fval same_fval ops)).
 (** finding class closures-share-code-pointer *)
 Definition es_class (ops : list (eop fval)) : bool := negb (code_identifies (ehandlers_of ops)).
 
 (** *** lifecycle handlers through OnX/OnceX/OffX/OffAll of the public objects. *)
-Definition api_model (ops : list aop) : N := enc_outs (aouts ops).
-Definition api_spec (ops : list aop) : N := enc_outs (spec_outs N N.eqb (map aop_spec ops)).
+Definition api_model (ops : list aop) : list N := digits_of (aouts ops).
+Definition api_spec (ops : list aop) : list N := digits_of (spec_outs N N.eqb (map aop_spec ops)).
 (** finding class off-by-func-identity:lifecycle *)
 Definition api_class (ops : list aop) : bool := existsb names_handler ops.
+
+(** Small numbers by name (numeral parsing dominates the cost of literal cases). *)
+Definition n0 := 0%N. Definition n1 := 1%N. Definition n2 := 2%N. Definition n3 := 3%N.
+Definition n4 := 4%N. Definition n5 := 5%N. Definition n6 := 6%N. Definition n7 := 7%N.
+Definition n8 := 8%N. Definition n9 := 9%N.
 
 (** *** Explicit cases (long random sequences): ops, what each occurrence returned, whether a call
     panicked, final slice lengths. *)
@@ -81,6 +143,16 @@ Definition es_oracle (c : ecase) : bool :=
   list_eqb (list_eqb N.eqb) (map (fun x => map fdigit (snd x)) (espec_outs fval same_fval ops)) obs.
 Definition es_case_class (c : ecase) : bool :=
   let '(ops, _, _, _) := c in es_class ops.
+
+(** the same through a public object (map sizes not observable) *)
+Definition ecase' := (list (eop fval) * list (list N) * bool)%type.
+Definition es_agree_nolens (c : ecase') : bool :=
+  let '(ops, obs, panicked) := c in
+  negb panicked && list_eqb (list_eqb N.eqb) (map (fun x => map fdigit (snd x)) (eouts fval same_code ops)) obs.
+Definition es_oracle_nolens (c : ecase') : bool :=
+  let '(ops, obs, panicked) := c in es_oracle (ops, obs, panicked, (0%N, 0%N)).
+Definition es_class_nolens (c : ecase') : bool :=
+  let '(ops, _, _) := c in es_class ops.
 
 Definition acase := (list aop * list (list N) * bool)%type.
 Definition api_agree (c : acase) : bool :=
